@@ -315,6 +315,14 @@ class Theory:
             with macro.level <= self.check_level.
         
         """
+        # The id of an item must be its position in the proof being checked:
+        # citations are resolved by position, while can_depend_on compares ids.
+        try:
+            if any(i < 0 for i in seq.id.id) or prf.find_item(seq.id) is not seq:
+                raise ProofStateException
+        except ProofStateException:
+            raise CheckProofException("id %s does not match position of item" % seq.id)
+
         if seq.rule == "":
             # Empty line in the proof
             return None
